@@ -402,11 +402,13 @@ func dumpFor(d *wl.Dump, key string) *wl.BucketDump {
 
 // kf03aPoint: crash point k lies between the in-place rewrite of a variable-length
 // interval's data and the update of its 24-byte index record (writer.go).
-func (cr *crashRun) kf03aPoint(k int) bool {
-	if k <= 0 || k >= len(cr.Events) {
+func (cr *crashRun) kf03aPoint(k int) bool { return kf03aPointIn(cr.Events, k) }
+
+func kf03aPointIn(events []crashfs.Event, k int) bool {
+	if k <= 0 || k >= len(events) {
 		return false
 	}
-	a, b := &cr.Events[k-1], &cr.Events[k]
+	a, b := &events[k-1], &events[k]
 	if a.Kind != crashfs.EvWrite || b.Kind != crashfs.EvWrite || a.Path != b.Path || !strings.HasSuffix(a.Path, ".bin") {
 		return false
 	}
@@ -415,7 +417,7 @@ func (cr *crashRun) kf03aPoint(k int) bool {
 	}
 	// in place: some earlier write to the same file started at the same offset
 	for i := 0; i < k-1; i++ {
-		e := &cr.Events[i]
+		e := &events[i]
 		if e.Kind == crashfs.EvWrite && e.Path == a.Path && e.Off == a.Off {
 			return true
 		}
